@@ -221,6 +221,11 @@ pub fn explore_batch(profile: &Profile, seed: u64, runs: u64, nworkers: usize, o
                             }
                             started[w].store(t0.elapsed().as_millis() as u64, Ordering::SeqCst);
                             current[w].store(i, Ordering::SeqCst);
+                            if let Some(only) = std::env::var("VERIF_ONLY_RUN").ok().and_then(|s| s.parse::<u64>().ok()) {
+                                if i != only {
+                                    continue;
+                                }
+                            }
                             let rs = rng::run_seed(seed, profile.property, i);
                             if std::env::var("VERIF_TRACE_RUNS").is_ok() {
                                 println!("run {} seed {}", i, rs);
